@@ -19,13 +19,14 @@ def run_standard(chk, spec, replay=None):
         problems = chk.audit(spec["props_file"])
         proof_broken.extend(problems)
     # 4. harness
-    hok, hout = chk.build_harness()
+    hbin = spec.get("harness_bin", "vharness")
+    hok, hout = chk.build_harness(bin=hbin)
     recs = []
     if hok:
-        args = [spec["harness_prop"], "--seed", str(chk.seed), "--tier", chk.tier]
+        args = ([spec["harness_prop"]] if hbin == "vharness" else []) + ["--seed", str(chk.seed), "--tier", chk.tier]
         if replay:
             args += ["--replay", replay]
-        rc, out2, recs = chk.run_harness(args, "cases_%s.jsonl" % pid, timeout=spec.get("harness_timeout", 3000))
+        rc, out2, recs = chk.run_harness(args, "cases_%s.jsonl" % pid, timeout=spec.get("harness_timeout", 3000), bin=hbin)
         if rc != 0:
             proof_broken.append("harness run failed rc=%d: %s" % (rc, out2[-800:]))
     else:
